@@ -229,6 +229,7 @@ func account(a *chunkAcc, prop string, r *run, restarts []restartOutcome) {
 	st["strays"] += r.strays
 	st["trace_events"] += len(r.trace)
 	st["far_channel_too_long_callbacks"] += r.farCallbacks
+	st["barrier_channels_without_worker"] += r.noWorker
 	st["channel_too_long_answers_persisted_unreported"] += r.unreportedChTL
 	switch prop {
 	case "C01":
